@@ -364,7 +364,10 @@ pub fn worker(w: &mut Worker) {
                         let text = render(&prog, &mut Speller::rot(rot));
                         let cj = json!({"script": text, "blocks": n});
                         w.begin(|| cj.clone());
-                        let r = explore_program(&rig, &prog, &text, devs, horizon, 200_000);
+                        // two blocks: one more deviation than the tier's default, so that a loop can run
+                        // twice *and* two conditions inside it can deviate (the same block executed again)
+                        let d = if n == 2 { devs.max(3) } else { devs };
+                        let r = explore_program(&rig, &prog, &text, d, horizon, 200_000);
                         report(w, r, cj, true, hash64(&(n, count(&forest), forms, rot)));
                     }
                 }
